@@ -1183,15 +1183,48 @@ Qed.
 (* 9. Rung level construction and the rung structure of reachable states     *)
 (* ======================================================================== *)
 
-Lemma geo_levels_ok max_t rf fuel : forall cur, (0 < cur)%Z -> (2 <= rf)%Z ->
-  Forall (fun x => (cur <= x < max_t)%Z) (geo_levels fuel cur rf max_t) /\
+Lemma round_he_bounds x : x - (1 # 2) <= inject_Z (round_half_even x) <= x + (1 # 2).
+Proof.
+  unfold round_half_even. pose proof (Qfloor_le x) as F1. pose proof (Qlt_floor x) as F2.
+  set (f := Qfloor x) in *.
+  assert (Hf1 : inject_Z (f + 1) == inject_Z f + 1) by (rewrite inject_Z_plus; reflexivity).
+  destruct (Qcompare (x - inject_Z f) (1 # 2)) eqn:E.
+  - apply Qeq_alt in E. destruct (Z.even f); [|rewrite Hf1]; lra.
+  - apply Qlt_alt in E. lra.
+  - apply Qgt_alt in E. rewrite Hf1. lra.
+Qed.
+
+Lemma round_he_Z z : round_half_even (inject_Z z) = z.
+Proof.
+  unfold round_half_even. rewrite Qfloor_Z.
+  replace (Qcompare (inject_Z z - inject_Z z) (1 # 2)) with Lt; [reflexivity|].
+  symmetry. apply (proj1 (Qlt_alt _ _)). assert (H : inject_Z z - inject_Z z == 0) by ring. rewrite H. reflexivity.
+Qed.
+
+(* geometric levels for a RATIONAL reduction factor >= 2 (round half even of min_t * rf^k) *)
+Lemma geo_levels_ok max_t rf fuel : forall cur, 1 <= cur -> 2 <= rf ->
+  Forall (fun x => cur - (1 # 2) <= inject_Z x /\ (0 < x <= max_t)%Z) (geo_levels fuel cur rf max_t) /\
   StronglySorted Z.lt (geo_levels fuel cur rf max_t).
 Proof.
   induction fuel as [|fuel IH]; intros cur Hc Hrf; simpl; [split; constructor|].
-  destruct (cur <? max_t)%Z eqn:E; [|split; constructor].
-  destruct (IH (cur * rf)%Z ltac:(nia) Hrf) as [H1 H2]. split.
-  - constructor; [lia|]. rewrite Forall_forall in *. intros x Hx. specialize (H1 x Hx). nia.
-  - constructor; [exact H2|]. rewrite Forall_forall in *. intros x Hx. specialize (H1 x Hx). nia.
+  destruct (Qltb cur (inject_Z max_t)) eqn:E; [|split; constructor]. apply Qltb_lt in E.
+  assert (Hc' : 1 <= cur * rf) by nra.
+  destruct (IH (cur * rf) Hc' Hrf) as [H1 H2].
+  pose proof (round_he_bounds cur) as [B1 B2]. set (h := round_half_even cur) in *.
+  assert (Hh : (0 < h <= max_t)%Z).
+  { split.
+    - rewrite Zlt_Qlt. change (inject_Z 0) with 0. lra.
+    - assert (A : (h < max_t + 1)%Z) by (rewrite Zlt_Qlt, inject_Z_plus; change (inject_Z 1) with 1; lra). lia. }
+  split.
+  - constructor; [split; [exact B1|exact Hh]|].
+    rewrite Forall_forall in *. intros x Hx. destruct (H1 x Hx) as [Hlo Hr]. split; [nra|exact Hr].
+  - constructor; [exact H2|]. rewrite Forall_forall in *. intros y Hy. destruct (H1 y Hy) as [Hlo _].
+    destruct (Z_lt_le_dec h y) as [Hlt|Hle]; [exact Hlt|exfalso].
+    rewrite Zle_Qle in Hle.
+    assert (Hc1 : cur == 1) by nra.
+    assert (A1 : (h < 2)%Z) by (rewrite Zlt_Qlt; change (inject_Z 2) with 2; lra).
+    assert (A2 : (1 < y)%Z) by (rewrite Zlt_Qlt; change (inject_Z 1) with 1; nra).
+    rewrite <- Zle_Qle in Hle. lia.
 Qed.
 
 Lemma arith_levels_ok max_t incr fuel : forall cur, (1 <= incr)%Z ->
@@ -1256,15 +1289,17 @@ Proof.
       assert (Hfuel : exists f, Z.to_nat max_t = S f) by (exists (Z.to_nat max_t - 1)%nat; lia).
       destruct Hfuel as [f Hf].
       destruct rf as [rf|].
-      + destruct (2 <=? rf)%Z eqn:Erf; [|discriminate]. simpl in H. injection H as <-.
-        destruct (geo_levels_ok max_t rf (Z.to_nat max_t) grace ltac:(lia) ltac:(lia)) as [H1 H2].
-        exists (geo_levels (Z.to_nat max_t) grace rf max_t). split; [reflexivity|]. split; [exact H2|].
-        assert (Hne : geo_levels (Z.to_nat max_t) grace rf max_t <> []).
-        { rewrite Hf. simpl. destruct (grace <? max_t)%Z; [discriminate|lia]. }
-        split; [|split; [exact Hne|]].
-        * rewrite Forall_forall in *. intros x Hx. specialize (H1 x Hx). lia.
-        * intro Hl. exfalso. rewrite Forall_forall in H1.
-          specialize (H1 _ (last_In _ Hne)). lia.
+      + destruct (Qleb 2 rf) eqn:Erf; [|discriminate]. simpl in H. injection H as <-. apply Qleb_le in Erf.
+        assert (Hg1 : 1 <= inject_Z grace) by (change 1 with (inject_Z 1); rewrite <- Zle_Qle; lia).
+        destruct (geo_levels_ok max_t rf (Z.to_nat max_t) (inject_Z grace) Hg1 Erf) as [H1 H2].
+        exists (geo_levels (Z.to_nat max_t) (inject_Z grace) rf max_t). split; [reflexivity|]. split; [exact H2|].
+        assert (Hlt : Qltb (inject_Z grace) (inject_Z max_t) = true) by (apply Qltb_lt; rewrite <- Zlt_Qlt; lia).
+        assert (Hshape : exists rest, geo_levels (Z.to_nat max_t) (inject_Z grace) rf max_t = grace :: rest).
+        { rewrite Hf. simpl. rewrite Hlt, round_he_Z. eexists. reflexivity. }
+        destruct Hshape as [rest Hshape]. rewrite Hshape in *.
+        split; [|split; [discriminate|]].
+        * rewrite Forall_forall in *. intros x Hx. destruct (H1 x Hx) as [_ Hr]. exact Hr.
+        * intro Hl. destruct rest as [|y r]; [simpl in Hl; lia|discriminate].
       + destruct incr as [incr|]; [|discriminate].
         destruct (1 <=? incr)%Z eqn:Ei; [|discriminate]. simpl in H. injection H as <-.
         destruct (arith_levels_ok max_t incr (Z.to_nat max_t) grace ltac:(lia)) as [H1 H2].
